@@ -12,7 +12,8 @@ import (
 
 type mapWorld struct {
 	*vWorld
-	ghostMaps map[*simMem]int // persistent-map allocations + outstanding user maps per memory object
+	ghostMaps  map[*simMem]int // persistent-map allocations + outstanding user maps per memory object
+	fixedSizes bool
 }
 
 func (mw *mapWorld) memOfAlloc(v *vAlloc) *simMem { return mw.dev.memOf(v.a.Memory()) }
@@ -22,9 +23,12 @@ func (mw *mapWorld) allocMappable(name string, typeIndex int, persistent bool, m
 }
 
 func (mw *mapWorld) allocMappableIn(pool *Pool, name string, typeIndex int, persistent bool, maxSize int) *vAlloc {
-	size := verifNondetInt(name + "Size")
-	verifAssume(size >= 1)
-	verifAssume(size <= maxSize)
+	size := maxSize
+	if !mw.fixedSizes {
+		size = verifNondetInt(name + "Size")
+		verifAssume(size >= 1)
+		verifAssume(size <= maxSize)
+	}
 	flags := AllocationCreateHostAccessRandom
 	if persistent {
 		flags |= AllocationCreateMapped
@@ -229,6 +233,10 @@ func mapScript(prop int, cfg int) {
 		w.pools = append(w.pools, pool)
 		maxA, maxB = 600, 700
 	}
+	if (cfg/256)%2 == 1 {
+		mw.fixedSizes = true // window-phase sweep: the sizes play no role, the event counts do
+		maxA, maxB = 24, 40
+	}
 	a := mw.allocMappableIn(pool, "a", typeIndex, persistentA, maxA)
 	b := mw.allocMappableIn(pool, "b", typeIndex, false, maxB)
 	if a == nil || b == nil {
@@ -258,6 +266,17 @@ func mapScript(prop int, cfg int) {
 	counts := []int{0, 4}
 	if verifTier() == 1 {
 		counts = []int{0, 3, 4}
+	}
+	if (cfg/256)%2 == 1 {
+		// sweep of the phase of the mapping-hysteresis window: 0..6 further sub-allocations (kept alive) shift the
+		// position of the 7-event window relative to the script, so that window boundaries fall on maps, unmaps,
+		// allocations and frees in turn
+		counts = []int{3, 4}
+		phase := verifChoice("windowPhase", 7)
+		for i := 0; i < phase; i++ {
+			mw.allocFixed(typeIndex, 16)
+		}
+		mw.check("script")
 	}
 	pairs := counts[verifChoice("mapUnmapPairs", len(counts))]
 	for i := 0; i < pairs; i++ {
